@@ -24,4 +24,69 @@ theorem skel_OAuthProxy_Proxy_ok : skel_OAuthProxy_Proxy = ([
   "case ",
   "p.ErrorPage"] : List String) := rfl
 
+theorem skel_NewProxy_ok : skel_NewProxy = ([
+  "if upstreams.ProxyRawPath",
+  "if upstream.Static",
+  "if err != nil",
+  "return nil, fmt.Errorf(\"could not register static upstream %q: %v\", upst",
+  "url.Parse",
+  "if err != nil",
+  "return nil, fmt.Errorf(\"error parsing URI for upstream %q: %w\", upstream",
+  "case fileScheme",
+  "if err != nil",
+  "return nil, fmt.Errorf(\"could not register file upstream %q: %v\", upstre",
+  "case httpScheme, httpsScheme, unixScheme",
+  "if err != nil",
+  "return nil, fmt.Errorf(\"could not register %s upstream %q: %v\", u.Scheme",
+  "case ",
+  "return nil, fmt.Errorf(\"unknown scheme for upstream %q: %q\", upstream.ID",
+  "return m, nil"] : List String) := rfl
+
+theorem skel_sortByPathLongest_ok : skel_sortByPathLongest = ([
+  "sort.Slice",
+  "func{",
+  "case iRW != \"\" && jRW != \"\"",
+  "return len(in[i].Path) > len(in[j].Path)",
+  "case iRW != \"\" && jRW == \"\"",
+  "return true",
+  "case iRW == \"\" && jRW != \"\"",
+  "return false",
+  "case ",
+  "return len(in[i].Path) > len(in[j].Path)",
+  "return in"] : List String) := rfl
+
+theorem skel_multiUpstreamProxy_registerSimpleHandler_ok : skel_multiUpstreamProxy_registerSimpleHandler = ([
+  "if strings.HasSuffix(path, \"/\")",
+  "strings.HasSuffix",
+  "m.serveMux.PathPrefix",
+  "m.serveMux.Path"] : List String) := rfl
+
+theorem skel_rewritePath_ok : skel_rewritePath = ([
+  "return http.HandlerFunc(func(rw http.ResponseWriter, req *http.Requ",
+  "func{",
+  "url.ParseRequestURI",
+  "if err != nil",
+  "fmt.Sprintf",
+  "return",
+  "rewriteRegExp.ReplaceAllString",
+  "reqURL.Query",
+  "if err != nil",
+  "fmt.Sprintf",
+  "return",
+  "next.ServeHTTP"] : List String) := rfl
+
+theorem skel_splitPathAndQuery_ok : skel_splitPathAndQuery = ([
+  "if len(s) == 1",
+  "return s[0], originalQuery.Encode(), nil",
+  "originalQuery.Encode",
+  "url.ParseQuery",
+  "if err != nil",
+  "return \"\", \"\", err",
+  "originalQuery.Add",
+  "return s[0], originalQuery.Encode(), nil",
+  "originalQuery.Encode"] : List String) := rfl
+
+theorem skel_setProxyDirector_ok : skel_setProxyDirector = ([
+  "func{"] : List String) := rfl
+
 end O2P.Expect.C17
